@@ -48,6 +48,11 @@ func ValidateGenesis(data *GenesisState, ac address.Codec) error {
 		return err
 	}
 
+	// more validators than MaxValidators make the first BeginBlocker panic
+	if len(data.Validators) > int(data.Params.MaxValidators) {
+		return ErrMaxValidatorsExceeded
+	}
+
 	if data.NextL2Sequence < DefaultL2SequenceStart {
 		return ErrInvalidSequence
 	}
